@@ -37,12 +37,6 @@ theorem new_wheel_wf : WF Wheel.new := WF.new
 /-- no two entries of the map have the same key -/
 theorem wheel_keys_unique (w : Wheel) (h : Sorted w.entries) : (keys w.entries).Nodup := h.nodup
 
-/-- the keys handed out by the `insert`s of a run -/
-def issued : List Out → List Key
-  | [] => []
-  | .ins (.some k) :: rest => k :: issued rest
-  | _ :: rest => issued rest
-
 /-- Keys are never reused: along any run the issued keys have strictly increasing generations,
 all at or above the counter the run started with. Hence a stale key (a `Drop` after completion, a
 late `update_waker`) can never hit somebody else's timer. -/
@@ -397,6 +391,14 @@ theorem insert_future_registers (w : Wheel) (now d : Nat) (hwf : WF w) (h : now 
         · exact hold
   · rw [isCompleted_false_iff]
     exact (mem_keys_insertEntry _ _ _ _).mpr (Or.inl rfl)
+
+/-- `sleep(duration)` / `timeout(duration, _)` / `interval(period)`: the deadline is `now + duration`;
+the only panic is the documented overflow of `Instant + Duration` -/
+theorem duration_deadline (now dur : Nat) :
+    (deadlineAfter now dur = none ↔ instMax < now + dur) ∧
+      (∀ d, deadlineAfter now dur = some d → d = now + dur) := by
+  unfold deadlineAfter
+  split <;> simp_all <;> omega
 
 /-- the explicit guard: `insert` panics exactly when a future deadline meets an exhausted counter -/
 theorem insert_panics_iff (w : Wheel) (now d : Nat) (hb : w.gen ≤ u64Max) :
